@@ -97,8 +97,16 @@ CHECKS = {
     "C12": dict(
         level="model_checking",
         clauses={"dtype-static", "dtype-export", "dtype-roundtrip"},
-        phases=dict(quick=[dict(profile="ty2"), dict(profile="union2")],
-                    thorough=[dict(profile="ty2"), dict(profile="join2"), dict(profile="union3"), dict(profile="agg3")]),
+        phases=dict(quick=[dict(profile="ty2", opts=dict(roundtrip=True)), dict(profile="union2", opts=dict(roundtrip=True))],
+                    thorough=[dict(profile="ty2", opts=dict(roundtrip=True)), dict(profile="join2", opts=dict(roundtrip=True)),
+                              dict(profile="union3", opts=dict(roundtrip=True)), dict(profile="agg3", opts=dict(roundtrip=True))]),
+    ),
+    "C20": dict(
+        level="model_checking",
+        clauses={"target", "dtype-roundtrip", "roundtrip-data"},
+        phases=dict(quick=[dict(profile="ty2", opts=dict(roundtrip=True, targets=True)), dict(profile="core2", opts=dict(targets=True))],
+                    thorough=[dict(profile="ty2", opts=dict(roundtrip=True, targets=True)), dict(profile="core2", opts=dict(roundtrip=True, targets=True)),
+                              dict(profile="agg3", opts=dict(roundtrip=True, targets=True)), dict(profile="join2", opts=dict(targets=True))]),
     ),
     "C14": dict(
         level="model_checking",
@@ -148,6 +156,51 @@ MANIFEST_TEXT = {
              "with partition_by= or group_by, before and after filter / slice_head / mutate / select / rename); order is compared as the sequence "
              "of tie classes the specification derives, window values cell by cell.",
         note=TRUST, technique="TLA+ spec + TLC exhaustive generation, replay on real code against predicted observations"),
+    "C01": dict(
+        text="Every TLC-generated pipeline (row-level, aggregate, window and two-table alphabets) is executed on a Polars-backed and a "
+             "SQLite-backed table built from the same frame; the two exports are compared with each other under the order knowledge the "
+             "specification derives (sequence of tie classes after arrange, bag otherwise), and with the specification as arbiter. A SQL-side "
+             "SubqueryError / NotSupportedError is the only accepted difference (the run continues behind an inserted alias()).",
+        note=TRUST + " SQLite is the only executable SQL engine here.", technique="TLA+ spec + TLC exhaustive generation, replay on real code against predicted observations; differential Polars vs SQLite"),
+    "C06": dict(
+        text="TLC enumerates two-table behaviours (a preparatory verb on either side, every join kind / predicate shape / suffix mode, verbs and "
+             "reachability probes through original references on the result); the specification defines the result as the comprehension over "
+             "row pairs plus padding and the documented suffix rule, compared with both back ends.",
+        note=TRUST, technique="TLA+ spec + TLC exhaustive generation, replay on real code against predicted observations"),
+    "C07": dict(
+        text="TLC enumerates unions of tables with permuted columns, hidden columns, duplicates, empty sides, type-widening and rejected "
+             "configurations, chained unions and verbs before / after; bag / distinct-set semantics of the specification vs both back ends.",
+        note=TRUST, technique="TLA+ spec + TLC exhaustive generation, replay on real code against predicted observations"),
+    "C08": dict(
+        text="For every TLC-generated pipeline on SQLite: an accepted pipeline must equal the specification's sequential meaning; a refusal must be "
+             "SubqueryError raised by the verb call; re-running with alias() directly before the refused verb must be accepted and correct; "
+             "pipelines of the never-needs class must not be refused; Polars never raises it.",
+        note=TRUST, technique="TLA+ spec + TLC exhaustive generation, replay on real code against predicted observations; alias-retry protocol"),
+    "C09": dict(
+        text="TLC enumerates histories (rename swaps, renames onto hidden names, overwriting mutate, re-created names, joins with suffixing, "
+             "alias(keep), collect, summarize) followed by uses of every reference that was ever visible (mutate probe, filter, select, tbl[ref].name, "
+             "C.name); the specification resolves references by identity and predicts data or ColumnNotFoundError.",
+        note=TRUST, technique="TLA+ spec + TLC exhaustive generation, replay on real code against predicted observations"),
+    "C12": dict(
+        text="Over a typed alphabet (int / float / bool columns, every operator family that changes a type, case supertypes, null literals, casts, "
+             "aggregates, window functions, join padding, union widening) the specification's static type is compared with dtype() and with the "
+             "exported polars dtype (exact family on Polars, numeric family on SQLite), and Table(export) must reproduce the types.",
+        note=TRUST, technique="TLA+ spec + TLC exhaustive generation, replay on real code against predicted observations; dtype / schema oracle"),
+    "C14": dict(
+        text="The alphabets contain every offending construct of the rule list in several syntactic positions after short histories; the "
+             "specification's elaboration ladder predicts the exception class raised by the verb call, compared on both back ends; after a "
+             "rejection the behaviour continues on the same input table; accepted pipelines must export on Polars.",
+        note=TRUST, technique="TLA+ spec + TLC exhaustive generation, replay on real code against predicted observations; exception-class oracle"),
+    "C16": dict(
+        text="TLC enumerates pipelines before alias / alias(keep_col_refs) / collect / transfer_col_references, self-joins of a derived table "
+             "with its alias, and uses of old and new references afterwards; the specification re-roots identities explicitly.",
+        note=TRUST, technique="TLA+ spec + TLC exhaustive generation, replay on real code against predicted observations"),
+    "C20": dict(
+        text="After every step of every generated behaviour all export targets (lazy Polars, Pandas, DictOfLists, ListOfDicts, Dict, Scalar, "
+             "ColExpr.export of each column) are compared with export(Polars()), which is compared with the specification; Table(exported) must "
+             "reproduce data and types.",
+        note=TRUST + " On SQL back ends Pandas export is not implemented (NotImplementedError) and is counted as unavailable, not as a violation.",
+        technique="TLA+ spec + TLC exhaustive generation, replay on real code against predicted observations; cross-target oracle"),
     "C11": dict(
         text="For every table of every TLC-generated behaviour, columns(), iteration, len, `in` and dir are compared with the exported frame "
              "on both back ends; the metadata layer of the specification predicts the same names.",
